@@ -8,7 +8,7 @@ echo "|---|---|---|---|" >> $out.tmp
 for d in seeded/C*/m*; do
   id=$(basename $(dirname $d)); k=$(basename $d)
   if ! git -C /repo diff --quiet; then echo "repo dirty"; exit 3; fi
-  git -C /repo apply $d/patch.diff || { echo "| $id | $k | PATCH DOES NOT APPLY | |" >> $out.tmp; continue; }
+  git -C /repo apply /verif/$d/patch.diff || { echo "| $id | $k | PATCH DOES NOT APPLY | |" >> $out.tmp; continue; }
   timeout 3600 ./check $id > /tmp/seeded_all.out 2>&1; rc=$?
   git -C /repo checkout -- .
   rm -rf replays/$id
